@@ -5,6 +5,7 @@ import (
 	"go/ast"
 	"go/constant"
 	"go/token"
+	"sort"
 	"strings"
 
 	"golang.org/x/tools/go/ssa"
@@ -468,6 +469,7 @@ func runC19(c *Ctx) {
 	checkMigrationRefusalBeforeWrites(c, "C19-R4")
 	checkUpgradeStopsAtFirstFailure(c, "C19-R1")
 	checkMigrationErrorDiscipline(c, "C19-R1")
+	checkMigrationsDoNotWriteVersion(c, "C19-R1")
 }
 
 func isResultOfInvoke(v ssa.Value, method string, idx int) bool {
@@ -805,6 +807,46 @@ func checkMigrationErrorDiscipline(c *Ctx, rule string) {
 		c.Check(rule, key, s.call.Pos(), s.res.ok, s.res.detail)
 	}
 	c.Floor(rule, "database write sites inside migration functions", n, 10)
+}
+
+// checkMigrationsDoNotWriteVersion: "if a migration fails the stored version is unchanged": the version is recorded by
+// upgrade (Manager.SetVersion) after the last pending migration succeeded — and by nobody else. A migration that calls
+// the component's version writer itself moves the stored version although it, or a later migration of the same upgrade,
+// can still fail.
+func checkMigrationsDoNotWriteVersion(c *Ctx, rule string) {
+	p := c.P
+	writers := map[*ssa.Function]bool{}
+	for _, fn := range p.RepoFuncs {
+		if fn.Name() != "SetVersion" || fn.Signature.Recv() == nil || !strings.HasSuffix(fn.Signature.Recv().Type().String(), "MigrationManager") {
+			continue
+		}
+		for _, ci := range callsOf(fn) {
+			if g := ci.Common().StaticCallee(); g != nil && p.InRepo(g) && fnPkgPath(g) == fnPkgPath(fn) {
+				writers[g] = true
+			}
+		}
+	}
+	c.Floor(rule, "version writers behind MigrationManager.SetVersion", len(writers), 2)
+	n := 0
+	var migs []*ssa.Function
+	for m := range migrationFunctions(p) {
+		if m.Parent() == nil {
+			migs = append(migs, m)
+		}
+	}
+	sort.Slice(migs, func(i, j int) bool { return migs[i].Pos() < migs[j].Pos() })
+	for _, m := range migs {
+		n++
+		bad := ""
+		for w := range writers {
+			if p.reachSet(m)[w] {
+				bad = w.Name()
+			}
+		}
+		c.Check(rule, "migration-leaves-version-to-the-framework:"+fnName(m), m.Pos(), bad == "",
+			fnName(m)+" writes the stored version itself ("+bad+"): if it fails afterwards, or a later migration of the same upgrade fails, Upgrade reports the error with the stored version already changed")
+	}
+	c.Floor(rule, "migration functions examined", n, 6)
 }
 
 func checkUpgradeStopsAtFirstFailure(c *Ctx, rule string) {
